@@ -20,6 +20,9 @@ theorem mem_put (b : Buf) (i j : Nat) (c : Char) :
   · have : (i == j) = false := by simpa using h
     simp [this, h]
 
+theorem mem_put_self (b : Buf) (i : Nat) (c : Char) : (b.put i c).mem i = some c := by
+  simp [mem_put]
+
 theorem put_neg (b : Buf) (i : Nat) (c : Char) : (b.put i c).neg = b.neg := rfl
 theorem put_log (b : Buf) (i : Nat) (c : Char) : (b.put i c).log = (i, c) :: b.log := rfl
 
